@@ -325,16 +325,16 @@ def gen_items(rng, depth, kind, budget, allow):
                 items.append({'k': 'def', 'kind': 'class', 'name': name, 'params': [], 'body': body})
         elif r < 0.95 and 'lambda' in allow:
             if rng.random() < 0.5:
-                items.append({'k': 'lambda', 'params': rng.sample(NAMES, rng.choice([0, 1, 1, 2]) if 'dflt' in allow
+                items.append({'k': 'lambda', 'params': rng.sample(NAMES, rng.choice([0, 1, 1, 2]) if 'ldflt' in allow
                                                                   else rng.choice([0, 1])),
                               'x': rng.choice(NAMES)})
-                if items[-1]['params'] and 'dflt' in allow and rng.random() < 0.5:
+                if items[-1]['params'] and 'ldflt' in allow and rng.random() < 0.5:
                     items[-1]['dflt'] = rng.choice(NAMES)
             else:
                 name = rng.choice(FNAMES)
                 params = rng.sample(NAMES, rng.choice([0, 0, 1]))
                 items.append({'k': 'lamdef', 'name': name, 'params': params, 'x': rng.choice(NAMES)})
-                if 'dflt' in allow:
+                if 'ldflt' in allow:
                     if not params and rng.random() < 0.5:
                         items[-1]['params'] = params = rng.sample(NAMES, rng.choice([1, 2]))
                     if params and rng.random() < 0.6:
